@@ -106,13 +106,29 @@ def random_bytes(kind, r, n, maxlen=64):
             b[1] = pt if r.random() < 0.85 else r.getrandbits(8)
             if r.random() < 0.85:
                 b[2:4] = struct.pack(">H", (L // 4 - 1) & 0xffff)
+        if L >= 8 and r.random() < 0.15 and gen.DICT_U32:
+            o = 4 * r.randrange(1, L // 4)
+            b[o:o + 4] = struct.pack(">I", r.choice(gen.DICT_U32))
         out.append(P(kind, bytes(b)))
+    return out
+
+
+def dict_words(kind, r):
+    """a well-formed packet of `kind` with every harvested 32-bit constant as its first body word"""
+    out = []
+    if isinstance(kind, tuple) or kind in ("unknown", "packet"): return out
+    for w in gen.DICT_U32:
+        c = wf_cfg_for(kind, r)
+        b = bytearray(gen.encode(c))
+        if len(b) >= 8:
+            b[4:8] = struct.pack(">I", w)
+            out.append(P(kind, bytes(b)))
     return out
 
 
 def typed_stream(kind, r, tier):
     n = 300 if tier == "quick" else 3000
-    s = header_grid(kind, r, tier)
+    s = dict_words(kind, r) + header_grid(kind, r, tier)
     s += structured(kind, r, n)
     s += random_bytes(kind, r, n * 3)
     return s
@@ -238,6 +254,10 @@ def compound_stream(r, tier):
                         t = tile(r, False, L)
                     tiles.append(t)
                 out.append(P("compound", b"".join(tiles), tiles=[len(t) for t in tiles]))
+    for w in gen.DICT_U32:
+        for pt in (201, 207):
+            out.append(P("compound", bytes([0x80, pt, 0, 1]) + struct.pack(">I", w) + bytes([0x81, 203, 0, 1, 0, 0, 0, 7])))
+            out.append(P("compound", bytes([0x81, 203, 0, 1, 0, 0, 0, 7, 0x80, pt, 0, 1]) + struct.pack(">I", w)))
     for _ in range(n):
         k = r.choice([1, 1, 2, 2, 3, 4, 6])
         tiles = [tile(r, r.random() < 0.8) for _ in range(k)]
@@ -649,6 +669,10 @@ def boundary_cfgs(kind, r, tier):
                 if not full and r.random() < 0.5: continue
                 out.append({"k": "pfb", "mode": "borrowed", "fci": {"k": "rpsi", "pt": r.choice([0, 96, 127]), "data": gen.r_bytes(r, n), "overrun": ov},
                             "padding": r.choice(pads_legal), "sender": gen.r_u32(r), "media": gen.r_u32(r)})
+        for n_ in range(0, 13):
+            for ov in range(0, 9):
+                out.append({"k": "pfb", "mode": "owned", "_rpsi_sweep": True, "fci": {"k": "rpsi", "pt": 96, "data": bytes([0xff]) * n_, "overrun": ov},
+                            "padding": 0, "sender": 1, "media": 2})
         for pt in (126, 127, 128, 129, 255):
             out.append({"k": "pfb", "mode": "owned", "fci": {"k": "rpsi", "pt": pt, "data": b"\xff\xff", "overrun": 1}, "padding": 0, "sender": 1, "media": 2})
         # NACK insertion orders: small sets inside a 40-wide window, every permutation of the adds
@@ -723,6 +747,10 @@ def boundary_cfgs(kind, r, tier):
                 out.append({"k": "compound", "members": ms})
         out.append({"k": "compound", "members": []})
         out.append({"k": "compound", "members": [{"k": "compound", "members": []}]})
+        U = lambda pt=242: {"k": "custom", "unit": True, "pt": pt, "min": 8, "body": bytes(4), "padding": 0}
+        for ms in ([U(), U()], [U(), {"k": "rr", "ssrc": 1, "padding": 0, "rbs": []}, U(), U()], [U(208), U(242), U(208)], [U()],
+                   [U(), U(), {"k": "bye", "padding": 4, "sources": [1], "reason": None}]):
+            out.append({"k": "compound", "members": ms})
         E = lambda: {"k": "compound", "members": []}
         PB = lambda p: {"k": "bye", "padding": p, "sources": [1], "reason": None}
         RR = lambda: {"k": "rr", "ssrc": 2, "padding": 0, "rbs": []}
